@@ -104,7 +104,7 @@ def handleCase (env : Env) (ts : Toks) : String :=
         let cfg := cl.cfg
         -- `establish` refuses to start, or its reader refuses the PDU, before request processing
         let pre : Option String :=
-          if cfg.abstractSyntaxes.isEmpty && !cfg.promiscuous then some "missing-abstract-syntax"
+          if mode == "tcp" && cfg.abstractSyntaxes.isEmpty && !cfg.promiscuous then some "missing-abstract-syntax"
           else if mode == "tcp" && cfg.maxPdu < MINIMUM_PDU_SIZE then some "invalid-max-pdu"
           else if mode == "tcp" && cl.strict && rqlen > cfg.maxPdu then some "pdu-too-large"
           else none
